@@ -257,6 +257,14 @@ theorem C04_copy_spec (src dst : St) (hs : Inv src) (v w : Nat) (vs vd : View)
   · exact key _ h1
   · exact key _ h2
 
+/-- **The batches of `CopyBatched`**: the loop as it is written in `kvstore.go` (count every entry; commit and start a new
+batch when `batchSize != 0 && currentBatchSize >= batchSize`; commit what is left at the end) commits exactly the batches
+`chunks n es` the model of the answers is built from — for every batch size (0 = none) and every list of entries.  The
+trace model (`copybLoopTr`) is the same loop with the calls written out, compared with the real code call by call. -/
+theorem C04_copyBatched_loop_is_chunks (n : Nat) (es : List Entry) :
+    loopBatches n [] 0 es = chunks n es ∧ (chunks n es).flatten = es :=
+  ⟨loopBatches_eq_chunks n es, chunks_flatten n es⟩
+
 /-- **The prefix arithmetic** (`utils.KeyPrefixUpperBound`, on which range scans of persistent stores
 rest): a key carries prefix `p` iff `p ≤ k < upperBound p` in Go's byte order, where the empty and the
 all-0xff prefix have no upper bound (`upperBound p = none`: every `k ≥ p` carries the prefix). -/
